@@ -20,6 +20,7 @@ func init() { register("C10", runC10) }
 func runC10(c *Ctx) {
 	c.Rule("G1 join: every go statement is tied to a sync.WaitGroup whose Add dominates the spawn, whose Done runs on every path of the goroutine body (deferred, or as the last action of every exit) and whose Wait lies on every path from the spawn to a return of the spawning function - or the goroutine is the closer of a result channel that the spawner drains")
 	c.Rule("G2 captured writes: code run by a goroutine stores only to its own locals, to memory it allocated or acquired itself, to per-worker objects handed to it, to elements of shared slices whose index depends on the goroutine's work assignment (its parameters, its partition loop variable or a ticket drawn from an atomic counter), through sync/atomic, or under a held mutex; a store to a captured variable or to a shared element at an index that does not depend on the work assignment is allowed only inside the wait..signal window of the row pipeline (G4)")
+	c.Rule("G6 partition-local reads: a goroutine that writes S[i] at its own indices reads S[i+c] / S[i-c] (c != 0) only under a comparison of the index with one of its parameters (its partition bounds)")
 	c.Rule("G3 wake-up protocol: in every type that pairs an atomic progress counter and an atomic waiter count with a mutex and a sync.Cond: Cond.Wait is called only inside a loop that re-reads the counter, with the mutex held and after the waiter count was incremented; the signaller stores the counter before it reads the waiter count and takes and releases the mutex before Broadcast")
 	c.Rule("G4 row window: in the function that processes a claimed row, the wait on the row above precedes, and the signal of the own row follows, every access to the shared context arrays at indices that do not depend on the claimed row")
 	c.Rule("G5 lock pairing: every Mutex.Lock is followed by Unlock on all paths (or deferred)")
@@ -41,6 +42,7 @@ func runC10(c *Ctx) {
 		g := &a4{c: c, p: p, rows: rows}
 		g.joins()
 		g.capturedWrites()
+		g.neighbourReads()
 		g.wakeup()
 		g.lockPairing()
 		g.globals()
@@ -1291,4 +1293,132 @@ func globalOf(addr ssa.Value) *ssa.Global {
 		}
 	}
 	return nil
+}
+
+// ---- G6: partition-local reads ----
+//
+// A goroutine that writes S[i] for the i of its own partition must not read S[i-c] / S[i+c]
+// (c != 0): at the edge of its partition that element belongs to another goroutine, which may or
+// may not have written it yet. Allowed when the read is guarded by a comparison of the index with
+// one of the goroutine's parameters (its partition bounds).
+func (g *a4) neighbourReads() {
+	c, p := g.c, g.p
+	n := 0
+	for _, gs := range g.goStmts() {
+		fn := bodyOf(gs)
+		if fn == nil || fn.Blocks == nil || !p.IsModFunc(fn) {
+			continue
+		}
+		n++
+		baseKey := func(v ssa.Value) ssa.Value {
+			// the slice value: a captured variable (load of a free variable), a free variable, a parameter
+			if ld, ok := v.(*ssa.UnOp); ok && ld.Op == token.MUL {
+				if fv, ok := ld.X.(*ssa.FreeVar); ok {
+					return fv
+				}
+			}
+			switch v.(type) {
+			case *ssa.FreeVar, *ssa.Parameter:
+				return v
+			}
+			return nil
+		}
+		type wr struct{ idx ssa.Value }
+		writes := map[ssa.Value][]wr{}
+		for _, b := range fn.Blocks {
+			for _, in := range b.Instrs {
+				st, ok := in.(*ssa.Store)
+				if !ok {
+					continue
+				}
+				ia, ok := st.Addr.(*ssa.IndexAddr)
+				if !ok {
+					continue
+				}
+				if k := baseKey(ia.X); k != nil {
+					writes[k] = append(writes[k], wr{ia.Index})
+				}
+			}
+		}
+		bad := ""
+		for _, b := range fn.Blocks {
+			for _, in := range b.Instrs {
+				ld, ok := in.(*ssa.UnOp)
+				if !ok || ld.Op != token.MUL {
+					continue
+				}
+				ia, ok := ld.X.(*ssa.IndexAddr)
+				if !ok {
+					continue
+				}
+				k := baseKey(ia.X)
+				if k == nil || len(writes[k]) == 0 {
+					continue
+				}
+				bin, ok := ia.Index.(*ssa.BinOp)
+				if !ok || (bin.Op != token.ADD && bin.Op != token.SUB) {
+					continue
+				}
+				kc, ok := bin.Y.(*ssa.Const)
+				if !ok || kc.Value == nil {
+					continue
+				}
+				if cv, okc := constantInt(kc); !okc || cv == 0 {
+					continue
+				}
+				neighbour := false
+				for _, w := range writes[k] {
+					if w.idx == bin.X {
+						neighbour = true
+					}
+				}
+				if !neighbour {
+					continue
+				}
+				// guarded by a comparison of the index with a parameter (partition bound)?
+				guarded := false
+				for _, d := range fn.Blocks {
+					iff, ok := d.Instrs[len(d.Instrs)-1].(*ssa.If)
+					if !ok || !d.Dominates(b) || d == b {
+						continue
+					}
+					cb, ok := iff.Cond.(*ssa.BinOp)
+					if !ok {
+						continue
+					}
+					// the comparison must bound the index on the side of the neighbour that is read:
+					// below (i-c): i > start / i-c >= start;  above (i+c): i+c < end
+					isIdx := func(v ssa.Value) bool { return v == bin.X || v == ssa.Value(bin) }
+					_, px := cb.X.(*ssa.Parameter)
+					_, py := cb.Y.(*ssa.Parameter)
+					trueEdge := len(d.Succs) == 2 && d.Succs[0].Dominates(b) && d.Succs[0] != d.Succs[1]
+					falseEdge := len(d.Succs) == 2 && d.Succs[1].Dominates(b) && !trueEdge
+					op := cb.Op
+					if falseEdge {
+						op = negOp(op)
+					} else if !trueEdge {
+						continue
+					}
+					below := bin.Op == token.SUB
+					switch {
+					case isIdx(cb.X) && py: // idx op param
+						if below && (op == token.GTR || op == token.GEQ) || !below && (op == token.LSS || op == token.LEQ) {
+							guarded = true
+						}
+					case px && isIdx(cb.Y): // param op idx
+						if below && (op == token.LSS || op == token.LEQ) || !below && (op == token.GTR || op == token.GEQ) {
+							guarded = true
+						}
+					}
+				}
+				if !guarded && bad == "" {
+					bad = p.Pos(ld.Pos())
+				}
+			}
+		}
+		key := fmt.Sprintf("%s#go@%s", FnName(fn), p.Pos(gs.Pos()))
+		c.Check(bad == "", "G6-neighbour-read", key, p.Pos(gs.Pos()), "the goroutine reads shared elements only at the indices it writes",
+			fmt.Sprintf("the goroutine started at %s writes the elements of a shared slice at its own indices but reads a neighbouring element at %s without comparing the index with its partition bounds: at the edge of its partition it reads an element that another goroutine writes, so the result depends on scheduling and on how many workers there are", p.Pos(gs.Pos()), bad))
+	}
+	c.Floor("G6-neighbour-read", n, 10)
 }
